@@ -262,6 +262,9 @@ func checkCase(c *Case) (err error) {
 	f.MustHandle("GET", "/boom/{id}/*{rest}", routeHandler, fox.WithMiddleware(inner))
 	f.MustHandle("GET", "/bts/{id}/{rest}", routeHandler, fox.WithMiddleware(inner), fox.WithIgnoreTrailingSlash(true))
 	f.MustHandle("GET", "/ok/{id}", okHandler)
+	// a route with more parameters than the panicking ones, served before them through an ignored trailing slash: what it leaves
+	// in the recycled context must not show up in the record of the panic
+	f.MustHandle("GET", "/prior/{pa}/{pb}/{pc}/{pd}", okHandler, fox.WithIgnoreTrailingSlash(true))
 	f.MustHandle("POST", "/only-post", okHandler)
 	before := snapshot(f)
 
@@ -295,6 +298,10 @@ func checkCase(c *Case) (err error) {
 	val, abort, broken := panicValue(c.Value)
 	desc := fmt.Sprintf("case %+v: ", *c)
 
+	for _, pp := range []string{"/prior/stale-a1/stale-b2/stale-c3/stale-d4/", "/prior/stale-a1/stale-b2/stale-c3/stale-d4"} {
+		f.ServeHTTP(&recW{h: http.Header{}}, httptest.NewRequest("GET", pp, nil))
+	}
+	ran["ok"] = 0
 	raised = 0
 	var escaped any
 	func() {
@@ -364,6 +371,9 @@ func checkCase(c *Case) (err error) {
 					return fmt.Errorf("%sthe diagnostic record does not name %q (route and parameters): %s", desc, s, text)
 				}
 			}
+		}
+		if strings.Contains(text, "stale-") {
+			return fmt.Errorf("%sthe diagnostic record carries a parameter of an earlier request (stale-...): %s", desc, text)
 		}
 		if !strings.Contains(text, method+" "+path+"?query=qv") {
 			return fmt.Errorf("%sthe diagnostic record does not contain the request line %q: %s", desc, method+" "+path, text)
